@@ -74,7 +74,7 @@ UNDECIDED_CLAUSES = ["file and header paths (Interfile keyword round trip, voxel
 
 
 def param_summary(tier):
-    return {"output type": TYPES, "input value / max / min": "all finite floats (every bit pattern)", "incoming scale factor": "0 (as the writers pass it)"}
+    return {"output type": TYPES, "input value / max / min": "all finite floats (every bit pattern)", "incoming scale factor": "0 (automatic) or any preferred positive factor"}
 
 
 # ---------------- native replay (header-only: the real templates from the working tree, UBSan) ----------------
@@ -105,7 +105,7 @@ def replay(job, o, workroot, repo):
         p = subprocess.run([exe] + c, capture_output=True, text=True, timeout=300)
         out = p.stdout + p.stderr
         if p.returncode == 1 and "CONFIRMED" in p.stdout:
-            return {"status": "confirmed", "detail": p.stdout.strip().splitlines()[-1], "command": "c10_replay " + " ".join(c),
+            return {"status": "confirmed", "detail": [l for l in p.stdout.strip().splitlines() if "CONFIRMED" in l][-1], "command": "c10_replay " + " ".join(c),
                     "from_verifier_counterexample": c is cands[0] and len(c) == 4}
         if "runtime error" in out:
             return {"status": "confirmed", "detail": "UBSan: " + [l for l in out.splitlines() if "runtime error" in l][0][-200:],
